@@ -307,6 +307,7 @@ fn c08_history<const N: usize>(
     out: &mut Outcome<AccTrace>,
 ) -> bool {
     let mut acc: Box<CobsAccumulator<N>> = Box::new(CobsAccumulator::new());
+    let mut other: Option<Box<CobsAccumulator<N>>> = None;
     let mut ncall_total = 0usize;
     let mut rawbuf: Vec<u8> = Vec::new();
     let mut pending: Vec<u8> = Vec::new(); // the reference model's only state
@@ -388,10 +389,12 @@ fn c08_history<const N: usize>(
             // real step
             ncall_total += 1;
             if t.relocate && N <= 1024 && ncall_total % 2 == 0 {
-                // a plain Rust move of the accumulator to a different address
-                let mut fresh: Box<CobsAccumulator<N>> = Box::new(CobsAccumulator::new());
-                std::mem::swap(&mut *fresh, &mut *acc);
-                acc = fresh;
+                // a plain Rust move of the accumulator to a different address. Both allocations
+                // stay alive for the whole history, so code that kept a pointer into the old
+                // location misbehaves deterministically instead of corrupting the heap.
+                let o = other.get_or_insert_with(|| Box::new(CobsAccumulator::new()));
+                std::mem::swap(&mut **o, &mut *acc);
+                std::mem::swap(o, &mut acc);
             }
             let call = match feed_once::<N>(&mut acc, t.borrowed, pos, window) {
                 Ok(c) => c,
@@ -1417,6 +1420,7 @@ fn c09_history<const N: usize>(
         }};
     }
     let mut acc: Box<CobsAccumulator<N>> = Box::new(CobsAccumulator::new());
+    let mut other: Option<Box<CobsAccumulator<N>>> = None;
     let mut ncall_total = 0usize;
     let mut rawbuf: Vec<u8> = Vec::new();
     let mut calls: Vec<Call> = Vec::new();
@@ -1436,10 +1440,12 @@ fn c09_history<const N: usize>(
             let pos = cstart + (chunk.len() - window.len());
             ncall_total += 1;
             if t.relocate && N <= 1024 && ncall_total % 2 == 0 {
-                // a plain Rust move of the accumulator to a different address
-                let mut fresh: Box<CobsAccumulator<N>> = Box::new(CobsAccumulator::new());
-                std::mem::swap(&mut *fresh, &mut *acc);
-                acc = fresh;
+                // a plain Rust move of the accumulator to a different address. Both allocations
+                // stay alive for the whole history, so code that kept a pointer into the old
+                // location misbehaves deterministically instead of corrupting the heap.
+                let o = other.get_or_insert_with(|| Box::new(CobsAccumulator::new()));
+                std::mem::swap(&mut **o, &mut *acc);
+                std::mem::swap(o, &mut acc);
             }
             let call = match feed_once::<N>(&mut acc, t.borrowed, pos, window) {
                 Ok(c) => c,
